@@ -794,7 +794,7 @@ class _ActionSubCommands(_SubParsersAction):
             # Merge environment variable values and default values
             subnamespace = None
             key = prefix + subcommand
-            with parent_parsers_context(subcommand, parser):
+            with parent_parsers_context(subcommand, parser), _ActionSubCommands.not_single_subcommand():
                 if env:
                     subnamespace = subparser.parse_env(defaults=defaults, _skip_validation=True)
                 elif defaults:
